@@ -1,7 +1,8 @@
 """C12 — reads never block and never take locks. Probe driver: for sampled j the writers of a program
 are run to their j-th scheduled step (inside bin critical sections, tree restructuring, bin migration,
 table initialisation), frozen there, and one read operation (get / get_key_value / contains_key /
-full iteration / len / equality) is run alone on the real crate. TLC validates each probe against
+full iteration / len / equality) is run alone on the real crate; in three of ten probes the read has
+already begun (it has loaded the table) before the writers run, so it resumes in a replaced table. TLC validates each probe against
 Trace_Solo: finished by its own steps, no lock / park / spin-wait announced, steps <= B(structure)."""
 import random
 import time
@@ -49,6 +50,12 @@ def run(pid, tier, seed, njobs=None):
         est = 30 * sum(len(t) for t in j["threads"][:-1])
         j["probe"] = {"reader": reader, "freeze_after": rng.randint(0, max(est, 10)), "max": 200000}
         j["nops_reader"] = len(rd)
+        if rng.random() < 0.3:
+            # the read is already under way when the writers run: it has loaded the table (or taken a few more steps) and
+            # resumes, alone, in a table that has been replaced once or several times meanwhile
+            pre = {"run": reader, "until": {"kind": "load", "ty": "table", "nth": 1}} if rng.random() < 0.6 else {"run": reader, "steps": rng.randint(1, 8)}
+            j["script"] = [pre] + list(j.get("script") or [])
+            j["stale_reader"] = 1
         jobs.append(j)
     res = lib.run_jobs(jobs, "c12", procs=8, timeout=1800)
     projected, byid = [], {}
